@@ -132,6 +132,7 @@ func (s *c16Server) snapshot() []any {
 type c16Stress struct {
 	mu    sync.Mutex
 	on    bool
+	flip  bool // flip the flag right after the next read (stress relief switching mid-route)
 	skeep map[string]bool
 	rate  uint
 }
@@ -139,7 +140,17 @@ type c16Stress struct {
 func (m *c16Stress) Start() error      { return nil }
 func (m *c16Stress) UpdateFromConfig() {}
 func (m *c16Stress) Recalc() uint      { return 0 }
-func (m *c16Stress) Stressed() bool    { m.mu.Lock(); defer m.mu.Unlock(); return m.on }
+func (m *c16Stress) Stressed() bool {
+	m.mu.Lock()
+	defer m.mu.Unlock()
+	v := m.on
+	if m.flip {
+		m.flip = false
+		m.on = !m.on
+	}
+	return v
+}
+func (m *c16Stress) peek() bool { m.mu.Lock(); defer m.mu.Unlock(); return m.on }
 func (m *c16Stress) GetSampleRate(traceID string) (uint, bool, string) {
 	m.mu.Lock()
 	defer m.mu.Unlock()
@@ -366,7 +377,12 @@ func (h *c16Harness) Apply(a map[string]any) error {
 		return h.router(a).processEvent(h.event(a, "", false), "req")
 	case "RecvProbe":
 		return h.router(a).processEvent(h.event(a, verifkit.Str(a, "t"), true), "req")
-	case "RecvSpan":
+	case "RecvSpan", "RecvSpanFlip":
+		if verifkit.Str(a, "name") == "RecvSpanFlip" {
+			h.stress.mu.Lock()
+			h.stress.flip = true
+			h.stress.mu.Unlock()
+		}
 		if err := h.router(a).processEvent(h.event(a, verifkit.Str(a, "t"), false), "req"); err != nil {
 			return err
 		}
@@ -412,7 +428,7 @@ func (h *c16Harness) Project() (any, error) {
 	}
 	h.ev.mu.Unlock()
 	return map[string]any{
-		"stressed": h.stress.Stressed(),
+		"stressed": h.stress.peek(),
 		"hnySet":   h.hny.snapshot(), "peerSet": h.peerSrv.snapshot(),
 		"upPending": h.pending("upstream"), "peerPending": h.pending("peer"),
 		"bufSet": buf,
